@@ -6,10 +6,14 @@ use strum_macros::Display;
 
 use crate::context::Context;
 
-use std::fmt;
+use std::{cell::Cell, fmt};
 
 /// Nesting limit for the evaluation of expressions and of the definitions they refer to
 const MAX_EVALUATION_DEPTH: usize = 128;
+
+/// Steps the evaluation of one expression may take, the definitions it refers to included:
+/// definitions that each mention the previous one twice double the work with every link
+const MAX_EVALUATION_STEPS: usize = 1 << 16;
 
 /// Assembly uses constant expressions to avoid copying magic numbers around.
 /// Expr represents these constant expressions.
@@ -113,26 +117,38 @@ impl Expr {
     }
 
     pub fn run(&self, constants: &dyn Context) -> Result<i64, ExprRunError> {
-        self.run_nested(constants, 0)
+        self.run_nested(constants, 0, &Cell::new(0))
     }
 
-    /// Evaluation with the nesting depth so far: cross linked equs would never end
-    fn run_nested(&self, constants: &dyn Context, depth: usize) -> Result<i64, ExprRunError> {
+    /// Evaluation with the nesting depth and the steps taken so far: cross linked equs would never end
+    fn run_nested(
+        &self,
+        constants: &dyn Context,
+        depth: usize,
+        steps: &Cell<usize>,
+    ) -> Result<i64, ExprRunError> {
         if depth > MAX_EVALUATION_DEPTH {
             return Err(ExprRunError::ArithmeticError(
                 "expression nested too deeply (definition that refers to itself?)".to_string(),
             ));
         }
+        if steps.get() >= MAX_EVALUATION_STEPS {
+            return Err(ExprRunError::ArithmeticError(
+                "expression takes too many steps (definitions that mention each other again and again?)"
+                    .to_string(),
+            ));
+        }
+        steps.set(steps.get() + 1);
         match self {
             Expr::Ident(ident) => match constants.get_expr(ident) {
                 Some(Expr::Const(address)) => Ok(address),
-                Some(expr) => expr.run_nested(constants, depth + 1),
+                Some(expr) => expr.run_nested(constants, depth + 1, steps),
                 None => Err(ExprRunError::MissingIdentifier(ident.clone())),
             },
             Expr::Const(value) => Ok(*value),
             Expr::Func(ident, argument) => {
                 if let Expr::Ident(name) = &**ident {
-                    let value = argument.run_nested(constants, depth + 1)?;
+                    let value = argument.run_nested(constants, depth + 1, steps)?;
                     let ret_val = match name.to_lowercase().as_str() {
                         "low" => (value as u64 & 0xff) as i64,
                         "high" | "byte2" => ((value as u64 & 0xff00) >> 8) as i64,
@@ -171,8 +187,8 @@ impl Expr {
                 }
             }
             Expr::Binary(binary) => {
-                let left = binary.left.run_nested(constants, depth + 1)?;
-                let right = binary.right.run_nested(constants, depth + 1)?;
+                let left = binary.left.run_nested(constants, depth + 1, steps)?;
+                let right = binary.right.run_nested(constants, depth + 1, steps)?;
                 match binary.operator {
                     BinaryOperator::Add => match left.checked_add(right) {
                         Some(value) => Ok(value),
@@ -254,7 +270,7 @@ impl Expr {
             }
             Expr::Unary(unary) => match unary.operator {
                 UnaryOperator::Minus => {
-                    let value = unary.expr.run_nested(constants, depth + 1)?;
+                    let value = unary.expr.run_nested(constants, depth + 1, steps)?;
                     match value.checked_neg() {
                         Some(value) => Ok(value),
                         None => Err(ExprRunError::ArithmeticError(format!(
@@ -264,11 +280,11 @@ impl Expr {
                     }
                 }
                 UnaryOperator::BitwiseNot => {
-                    let value = unary.expr.run_nested(constants, depth + 1)?;
+                    let value = unary.expr.run_nested(constants, depth + 1, steps)?;
                     Ok(!value)
                 }
                 UnaryOperator::LogicalNot => {
-                    let value = unary.expr.run_nested(constants, depth + 1)?;
+                    let value = unary.expr.run_nested(constants, depth + 1, steps)?;
                     Ok((value == 0) as i64)
                 }
             },
